@@ -40,7 +40,7 @@ FAM = "c10"
 SHIM_SRC = f"{L.VERIF}/engines/shim/getrandom_shim.c"
 SHIM_SO = f"{L.WORK}/shim/libgetrandom_shim.so"
 ROOT = f"{L.E2E_WORK}/c10"  # arenas are shared by both tiers (they are expensive to warm up)
-N_ARENAS = int(os.environ.get("VERIF_C10_ARENAS", "16"))
+_NA = os.environ.get("VERIF_C10_ARENAS")  # parallel arenas; each holds a private copy of the cache while a run lasts (~125 MB)
 RUN_TIMEOUT_S = 900
 
 OPS = ["gen", "genq", "genx", "wipe", "check", "checkdiag", "editcheck", "rmout"]
@@ -54,13 +54,14 @@ OP_DOC = {
     "editcheck": "swap P's blueprint to the other program (P <-> P2), then pavexc generate P --check",
     "rmout": "delete P's generated crate and diagnostics file, restore the pristine workspace manifest",
 }
-_W = os.environ.get("VERIF_C10_WIPE_ARENAS")  # arenas with warm cargo target dirs (~1.7 GB each)
+_W = os.environ.get("VERIF_C10_WIPE_ARENAS")  # arenas that keep a warm cargo target dir (~0.9 GB of disk each)
 TIERS = {
-    "quick": {"seeds": list(range(4)), "threads": [1, 16], "hist_len": 2, "hist_len_nowipe": 2, "wipe_arenas": int(_W or 6),
+    "quick": {"seeds": list(range(4)), "threads": [1, 16], "hist_len": 2, "hist_len_nowipe": 2, "wipe_arenas": int(_W or 2), "arenas": int(_NA or 8),
               "budget_s": None},
-    "thorough": {"seeds": list(range(32)), "threads": [1, 16], "hist_len": 3, "hist_len_nowipe": 4, "wipe_arenas": int(_W or 8),
+    "thorough": {"seeds": list(range(32)), "threads": [1, 16], "hist_len": 3, "hist_len_nowipe": 4, "wipe_arenas": int(_W or 2), "arenas": int(_NA or 12),
                  "budget_s": float(os.environ.get("VERIF_C10_BUDGET_S", "1000"))},
 }
+NO_RUN_OPS = ("wipe", "rmout")  # harness actions: no pavexc process
 FILES = ("manifest", "lib", "diag", "root")
 CHECKED_BY_WRITER = ("manifest", "lib", "root")  # the files `--check` compares (AppWriter)
 
@@ -267,11 +268,16 @@ class Project:
 
 
 class Arena:
-    """arena<k>/home           HOME ($HOME/.pavex/rustdoc/cache/*.db)
+    """arena<k>/home           HOME ($HOME/.pavex/rustdoc/cache/*.db); exists only while a run lasts
        arena<k>/p/app          P's and Q's component crate `verif_app 0.1.0`
-       arena<k>/p/ws, p/wsq    workspaces of P and Q (both see the crate as `../app`; one cargo target dir)
+       arena<k>/p/ws, p/wsq    workspaces of P and Q (both see the crate as `../app`)
        arena<k>/x/app          X's component crate: also `verif_app 0.1.0`, one extra annotated component
-       arena<k>/x/ws           workspace of X (sees its crate as `../app` too; its own cargo target dir)"""
+       arena<k>/x/ws           workspace of X (sees its crate as `../app` too)
+       arena<k>/target         the cargo target dir of the three workspaces (arena<k>/.cargo/config.toml); it is only
+                               used when pavexc misses the cache and runs `cargo rustdoc`, and only kept for the arenas
+                               that execute `wipe`. cargo names the JSON docs after the crate, so P's and X's
+                               `verif_app.json` collide in a shared target dir: the harness deletes that file whenever
+                               the project that wrote it last is not the one about to run (Arena.guard_doc_json)."""
 
     def __init__(self, k):
         self.k = k
@@ -281,34 +287,56 @@ class Arena:
         self.q = Project("q", f"{self.dir}/p/wsq", f"{self.dir}/p/app")
         self.x = Project("x", f"{self.dir}/x/ws", f"{self.dir}/x/app")
         self.count_file = f"{self.dir}/shim_count"
-        self.targets = [f"{self.dir}/p/target", f"{self.dir}/x/ws/target"]
+        self.target = f"{self.dir}/target"
+        self.doc_owner = None  # app dir whose docs are in target/doc/verif_app.json, when known
 
     def create(self):
         os.makedirs(self.home, exist_ok=True)
         copy_app(self.p.app)
         copy_app(self.x.app, X_EXTRA_SRC)
-        write_if_changed(f"{self.dir}/p/.cargo/config.toml", '[build]\ntarget-dir = "target"\n')
+        write_if_changed(f"{self.dir}/.cargo/config.toml", '[build]\ntarget-dir = "target"\n')
         for pr in (self.p, self.q, self.x):
             pr.create()
 
     def project(self, name):
         return {"p": self.p, "q": self.q, "x": self.x}[name]
 
-    def has_targets(self):
-        return all(os.path.isdir(f"{t}/debug/deps") for t in self.targets)
+    def has_target(self):
+        return os.path.isdir(f"{self.target}/debug/deps")
 
-    def copy_targets_from(self, other):
-        for src, dst in zip(other.targets, self.targets):
-            shutil.rmtree(dst, ignore_errors=True)
-            r = L.run(["cp", "-a", src, dst])
-            if r.returncode != 0:
-                raise L.MachineryError(f"cannot copy cargo target dir {src} -> {dst}: {r.stdout[-300:]}")
+    def copy_target_from(self, other):
+        shutil.rmtree(self.target, ignore_errors=True)
+        r = L.run(["cp", "-a", other.target, self.target])
+        if r.returncode != 0:
+            raise L.MachineryError(f"cannot copy cargo target dir {other.target} -> {self.target}: {r.stdout[-300:]}")
+        self.doc_owner = None
+
+    def drop_target(self):
+        shutil.rmtree(self.target, ignore_errors=True)
+        self.doc_owner = None
+
+    def drop_home(self):
+        shutil.rmtree(self.home, ignore_errors=True)
+
+    def guard_doc_json(self, proj):
+        """Called before every pavexc run (see the class comment)."""
+        if self.doc_owner != proj.app:
+            try:
+                os.remove(f"{self.target}/doc/verif_app.json")
+            except OSError:
+                pass
+            self.doc_owner = None
+
+    def note_documented(self, proj, stderr):
+        if "Documented verif_app" in stderr:
+            self.doc_owner = proj.app
 
     def wipe_cache(self):
         shutil.rmtree(f"{self.home}/.pavex", ignore_errors=True)
 
     def restore_cache(self, snap_home):
         self.wipe_cache()
+        os.makedirs(self.home, exist_ok=True)
         if os.path.isdir(f"{snap_home}/.pavex"):
             shutil.copytree(f"{snap_home}/.pavex", f"{self.home}/.pavex")
 
@@ -346,6 +374,8 @@ def run_pavexc(arena, proj, seed, threads, check=False, diagnostics=True, log=Fa
     if log:
         e["PAVEXC_LOG"] = "true"
         e["PAVEXC_LOG_FILTER"] = "info,pavexc=trace,rustdoc_processor=trace,persist_if_changed=trace"
+    os.makedirs(arena.home, exist_ok=True)
+    arena.guard_doc_json(proj)
     t0 = time.time()
     try:
         r = subprocess.run(cmd, cwd=proj.ws, env=e, stdout=subprocess.PIPE, stderr=subprocess.PIPE, text=True,
@@ -355,6 +385,7 @@ def run_pavexc(arena, proj, seed, threads, check=False, diagnostics=True, log=Fa
         err = ex.stderr.decode("utf8", "replace") if isinstance(ex.stderr, bytes) else (ex.stderr or "")
         code, out, timed_out = None, "", True
     wall = time.time() - t0
+    arena.note_documented(proj, err)
     calls, nbytes = 0, 0
     try:
         with open(arena.count_file) as f:
@@ -597,7 +628,7 @@ def prepare(tier):
     ensure_shim()
     os.makedirs(ROOT, exist_ok=True)
     write_bps()
-    arenas = [Arena(k) for k in range(N_ARENAS)]
+    arenas = [Arena(k) for k in range(TIERS[tier]["arenas"])]
     t0 = time.time()
     with cf.ThreadPoolExecutor(max_workers=8) as ex:
         list(ex.map(lambda a: a.create(), arenas))
@@ -639,8 +670,6 @@ def baseline(arenas, tier):
     todo = [s for s in todo if s["id"] != X_PROGRAM_ID] + [x_program()]
     for s in todo:
         proj = a0.x if s["id"] == X_PROGRAM_ID else a0.p
-        if proj is a0.x and not os.path.isdir(a0.targets[1]) and os.path.isdir(a0.targets[0]):
-            L.run(["cp", "-a", a0.targets[0], a0.targets[1]])  # spare a second cold `cargo rustdoc` build
         set_bp(proj, s["id"])
         proj.reset_outputs()
         o = run_pavexc(a0, proj, cfg["seeds"][0], 1)
@@ -676,10 +705,12 @@ def baseline(arenas, tier):
     notes["baseline_wall_s"] = round(time.time() - t0, 1)
     # cargo target dirs for the arenas that execute `wipe` (a cold cache re-runs `cargo rustdoc`)
     t0 = time.time()
-    need = [a for a in arenas[1:cfg["wipe_arenas"]] if not a.has_targets()]
-    if need and a0.has_targets():
+    need = [a for a in arenas[1:cfg["wipe_arenas"]] if not a.has_target()]
+    if need and a0.has_target():
         with cf.ThreadPoolExecutor(max_workers=4) as ex:
-            list(ex.map(lambda a: a.copy_targets_from(a0), need))
+            list(ex.map(lambda a: a.copy_target_from(a0), need))
+    for a in arenas[cfg["wipe_arenas"]:]:
+        a.drop_target()  # never needed there: every history starts from the warm snapshot and never wipes
     notes["target_dirs_copied"] = len(need)
     notes["target_copy_wall_s"] = round(time.time() - t0, 1)
     return canon, notes
@@ -831,6 +862,10 @@ def run_cases(arenas, cases, n_wipe_arenas, deadline=None):
             restore = c["kind"] != "sweep" or dirty
             rec = execute_case(a, c, restore=restore)
             dirty = c["kind"] != "sweep"
+            if a.k >= n_wipe_arenas and os.path.isdir(a.target):
+                # a cache miss where none was expected: cargo built a target dir here; do not keep ~1 GB per arena
+                count("unexpected_cache_misses_outside_wipe_arenas")
+                a.drop_target()
             with lock:
                 records.append(rec)
 
@@ -894,8 +929,12 @@ def _observe(tier, cfg):
     for n in range(1, cfg["hist_len_nowipe"] + 1):
         alphabet = OPS if n <= cfg["hist_len"] else [o for o in OPS if o != "wipe"]
         cases = []
+        n_equiv = 0
         for ops in itertools.product(alphabet, repeat=n):
-            cases.append(history_case(cfg, specs, h, ops, rot))
+            if ops[-1] in NO_RUN_OPS:
+                n_equiv += 1  # no pavexc process after the last operation: observationally the (n-1)-prefix, which is enumerated
+            else:
+                cases.append(history_case(cfg, specs, h, ops, rot))
             h += 1
         t0 = time.time()
         if deadline is not None and time.time() > deadline:
@@ -903,9 +942,12 @@ def _observe(tier, cfg):
         else:
             recs, left = run_cases(arenas, cases, cfg["wipe_arenas"], deadline)
         records += recs
-        batches.append({"batch": f"histories-len-{n}", "length": n, "alphabet": list(alphabet), "cases": len(cases),
-                        "completed": len(recs), "not_run": left, "wall_s": round(time.time() - t0, 1)})
+        batches.append({"batch": f"histories-len-{n}", "length": n, "alphabet": list(alphabet), "sequences": len(cases) + n_equiv,
+                        "equivalent_to_their_prefix": n_equiv, "cases": len(cases), "completed": len(recs), "not_run": left,
+                        "wall_s": round(time.time() - t0, 1)})
         L.log(f"c10: histories of length {n} over {len(alphabet)} ops: {len(recs)}/{len(cases)} in {time.time() - t0:.1f}s")
+    for a in arenas:
+        a.drop_home()  # every case restores the cache from the snapshot: nothing to keep
     return {"family": FAM, "tier": tier, "plugin_sha": plugin_sha(), "specs": specs, "canon": canon, "notes": notes,
             "selftest": st, "records": records, "batches": batches, "counters": dict(COUNTERS),
             "total_wall_s": round(time.time() - t_start, 1)}
@@ -1044,7 +1086,9 @@ RULE = (
     "{gen P, gen Q (other project, same component crate and cache), gen X (component crate with equal name, version and "
     "workspace-relative path but other contents: all cache-key columns but the source hash collide), wipe ($HOME/.pavex "
     "deleted), --check, --check --diagnostics, edit blueprint then --check, delete outputs}, each started from a warm-cache "
-    "snapshot by a generation of P, with the seed and thread count of every step rotating deterministically. oracle = the "
+    "snapshot by a generation of P, with the seed and thread count of every step rotating deterministically; a sequence "
+    "whose last operation starts no pavexc process (wipe, delete outputs) is observationally its own prefix and is counted "
+    "as covered by it. oracle = the "
     "property: SHA-256 of Cargo.toml, src/lib.rs and the diagnostics file equal the first run of the same program in every "
     "run; a generation whose outputs were all up to date changes no sha and no mtime_ns; `--check` exits 0 iff manifest, "
     "lib.rs and workspace manifest equal what a normal run would write and changes no file; generating Q or X leaves P "
@@ -1116,6 +1160,8 @@ def oracle_c10(obs, rep, tier):
                                   "failing_step": j, "steps": rec["steps"], "canonical_digests": {p: canon[p] for p in
                                                                                                  {rec["case"]["prog"], rec["case"]["p2"], rec["case"]["q"], X_PROGRAM_ID}},
                                   "confirmation": conf})
+    for a in arenas or []:
+        a.drop_home()
     batches = o["batches"]
     hb = [b for b in batches if b["batch"].startswith("histories")]
     full = [b for b in hb if b["completed"] == b["cases"]]
@@ -1136,7 +1182,8 @@ def oracle_c10(obs, rep, tier):
         "exhaustive_note": f"seed dimension: a bounded deterministic sweep of {len(cfg['seeds'])} of 2^128 hash seeds "
                            "(x 2 rayon pool sizes); rayon's internal interleavings are not controlled",
         "histories_exhaustive": all(b["completed"] == b["cases"] for b in hb),
-        "history_bounds": [{k: b[k] for k in ("length", "alphabet", "cases", "completed", "wall_s")} for b in hb],
+        "history_bounds": [{k: b[k] for k in ("length", "alphabet", "sequences", "equivalent_to_their_prefix", "cases", "completed",
+                                              "wall_s")} for b in hb],
         "history_bound_completed": max([b["length"] for b in full if b["alphabet"] == OPS], default=0),
         "history_bound_completed_without_wipe": max([b["length"] for b in full], default=0),
         "programs": [s["id"] for s in o["specs"]] + [X_PROGRAM_ID],
@@ -1193,6 +1240,8 @@ def replay_c10(o, rep):
             rec = execute_case(arenas[0], case, restore=True)
             found = evaluate(rec, canon)
             steps = rec["steps"]
+        for a in arenas:
+            a.drop_home()
     print(json.dumps({"replayed_case": case, "expected": "no violation of C10 in any step",
                       "observed_violations": [[k, w] for k, w, _j in found],
                       "steps": [{k: v for k, v in st.items() if k != "stderr"} for st in steps]}, indent=1))
